@@ -121,10 +121,16 @@ def specs():
     add(a + "position_with_ref", adsb.position_with_ref, tup(num, num), tcin(*POS), ref)
     add(a + "airborne_position_with_ref", adsb.airborne_position_with_ref, tup(num, num), None, ref)
     add(a + "surface_position_with_ref", adsb.surface_position_with_ref, tup(num, num), None, ref)
-    pair = lambda m, o, r: (m, o, 1, 2)  # noqa
-    pairref = lambda m, o, r: (m, o, r.choice((1, 3)), 2, rlat(r), rlon(r))  # noqa
+    # the second frame of a pair is whatever was received next: one time in four a frame of ANOTHER downlink format
+    def oth(o, r):
+        if r.random() < 0.25:
+            df_ = r.choice((0, 4, 5, 11, 16, 20, 21, 24, 19))
+            return "%028X" % ((df_ << 107) | r.getrandbits(107))
+        return o
+    pair = lambda m, o, r: (m, oth(o, r), 1, 2)  # noqa
+    pairref = lambda m, o, r: (m, oth(o, r), r.choice((1, 3)), 2, rlat(r), rlon(r))  # noqa
     # position(): lat_ref / lon_ref are documented None | float - any combination of given / omitted halves is a legal call
-    posref = lambda m, o, r: (m, o, r.choice((1, 3)), 2) + r.choice((  # noqa
+    posref = lambda m, o, r: (m, oth(o, r), r.choice((1, 3)), 2) + r.choice((  # noqa
         (rlat(r), rlon(r)), (rlat(r), rlon(r)), (rlat(r),), (None, rlon(r)), (rlat(r), None), ()))
     add(a + "position", adsb.position, latlon, tcin(*POS), posref)
     add(a + "airborne_position", adsb.airborne_position, latlon, None, pair)
